@@ -21,8 +21,8 @@ CONST = """CONSTANTS
   Accts = {%(accts)s}
   MaxNonce = %(maxn)d
   Prices = {1, 2}
-  Vals = {0, 2}
-  Bals = {1, 4}
+  Vals = {%(vals)s}
+  Bals = {%(bals)s}
   AS = %(AS)d
   GS = %(GS)d
   AQ = %(AQ)d
@@ -34,6 +34,7 @@ CONST = """CONSTANTS
   Alpha = "%(alpha)s"
   Slim = %(slim)s
   Strict = %(strict)s
+  Goal = "%(goal)s"
   HoleRepair = %(hole)s
 """
 
@@ -53,7 +54,8 @@ CLAUSES = ("PendingQueueDisjoint", "PendingGapFreeFromStateNonce", "PendingAffor
 
 def consts(c, **kw):
     d = dict(accts=", ".join(str(i) for i in range(1, c["na"] + 1)), maxn=c.get("maxn", 2), AS=c["AS"], GS=c["GS"], AQ=c["AQ"],
-             GQ=c["GQ"], ops=0, gen="none", mode="sync", alpha="full", slim="FALSE", strict="FALSE",
+             GQ=c["GQ"], ops=0, gen="none", mode="sync", alpha="full", slim="FALSE", strict="FALSE", goal="none",
+             vals=c.get("vals", "0, 2"), bals=c.get("bals", "1, 4"),
              hole="TRUE" if HOLE_REPAIRED else "FALSE")
     d.update(kw)
     return CONST % d
@@ -124,6 +126,31 @@ def design(ctx):
     ctx.cov["design_violation"] = violated
     ctx.cov["design_known_classes"] = sorted({c for c, _ in cex})
     return cex, violated
+
+
+# goal-directed generation: situations that random simulation practically never produces and that lie too deep for the
+# bounded-exhaustive alphabet are reached by model checking the negated goal (TxPool.tla, section "goals")
+GOALS = [("fullreplace", dict(name="GF", na=2, maxn=2, vals="0", bals="4", AS=1, GS=2, AQ=1, GQ=1), 4),
+         ("fullreplace", dict(name="GF2", na=2, maxn=3, vals="0", bals="4", AS=2, GS=3, AQ=1, GQ=1), 5),
+         ("tailremove", dict(name="GT", na=1, maxn=3, vals="0", bals="4", AS=1, GS=3, AQ=3, GQ=3), 4),
+         ("tailremove", dict(name="GT2", na=2, maxn=3, vals="0", bals="4", AS=2, GS=4, AQ=3, GQ=4), 4),
+         ("holefilter", dict(name="GH", na=1, maxn=4, vals="0, 2", bals="2, 4", AS=4, GS=4, AQ=4, GQ=4), 8)]
+
+
+def goals(ctx):
+    out = []
+    for goal, c, depth in GOALS:
+        if ctx.quick and c["name"] in ("GF2", "GT2"):
+            continue
+        m = ctx.tlc_must("TxPool", "SPECIFICATION Spec\nINVARIANT NoGoal\nVIEW View\nCHECK_DEADLOCK FALSE\n" +
+                         consts(c, ops=depth, alpha="goal", goal=goal), name="Goal_%s" % c["name"], timeout=1500)
+        got = [v for v in m.printed if isinstance(v, dict) and v.get("kind") == "CEX" and str(v.get("clause", "")).startswith("goal:")]
+        if got:
+            out.append(got[0]["h"])
+        else:
+            ctx.note("goal %s (%s) not reached within depth %d" % (goal, c["name"], depth))
+    ctx.cov["goal_behaviours"] = len(out)
+    return out
 
 
 def generate(ctx, c, g1_depth, g1_keep, sim_num, sim_depth, sim_keep):
@@ -278,7 +305,7 @@ def run(ctx):
     quick = ctx.quick
     cex, mviol = design(ctx)
     # stored witnesses and design-level counterexamples first; each counterexample must show on the real pool
-    first = witnesses() + [h for _, h in cex]
+    first = witnesses() + goals(ctx) + [h for _, h in cex]
     unreproduced = []
     if first:
         _, res = judge(ctx, cfg_of_init(first[0][0]), first, "W", conformance=False)
